@@ -154,6 +154,36 @@ def _sub_dump(sd, start, conv):
     return sorted(out), seen
 
 
+def _compare_with_fixed(net, srcs, how, res, bb, W, conv, rules):
+    """Free-input network through expand_scc() / build() vs the union over all input valuations of the results of the
+    networks with the inputs fixed (minimal trap spaces, attractor sets as sets; duplicates are C01's business)."""
+    sdS = bb.make_sd(net)
+    if how == "scc":
+        if W(lambda: sdS.expand_scc()) is not True:
+            return
+    else:
+        W(lambda: sdS.build())
+    gotm = {conv(sdS.node_data(i)["space"]) for i in sdS.minimal_trap_spaces()}
+    gota = set()
+    for ss in W(lambda: sdS.expanded_attractor_sets(), nodes=len(sdS)).values():
+        for vs in ss:
+            gota.add(frozenset(tuple(sorted((k, int(v)) for k, v in m.to_named_dict().items())) for m in vs.items()))
+    expm, expa = set(), set()
+    for vals in itertools.product([0, 1], repeat=len(srcs)):
+        fx = bb.make_sd(gen.fix_vars(net, dict(zip(srcs, vals))))
+        W(lambda: fx.expand_bfs())
+        for i in fx.minimal_trap_spaces():
+            expm.add(conv(fx.node_data(i)["space"]))
+        for ss in W(lambda: fx.expanded_attractor_sets(), nodes=len(fx)).values():
+            for vs in ss:
+                expa.add(frozenset(tuple(sorted((k, int(v)) for k, v in m.to_named_dict().items())) for m in vs.items()))
+    res.c(f"{how}_input_unions_compared")
+    if gotm != expm:
+        res.v(f"{how}-inputs-minimal-trap-spaces", f"{how}: {len(gotm)} minimal trap spaces, the fixed-input networks have {len(expm)} in total (missing {len(expm - gotm)}, spurious {len(gotm - expm)})", ctx={"rules": rules})
+    if gota != expa:
+        res.v(f"{how}-inputs-attractors", f"{how}: {len(gota)} attractors, the fixed-input networks have {len(expa)} in total (missing {len(expa - gota)}, spurious {len(gota - expa)})", ctx={"rules": rules})
+
+
 def _inputs(net, case, res, bb):
     from biobalm.interaction_graph_utils import source_nodes
 
@@ -214,27 +244,8 @@ def _inputs(net, case, res, bb):
         # source-SCC expansion treats every input valuation separately: its minimal trap spaces and attractors must
         # be the union over the valuations of those of the fixed networks (duplicates are C01's business)
         if not big:
-            sdS = bb.make_sd(net)
-            if W(lambda: sdS.expand_scc()) is True:
-                gotm = {conv(sdS.node_data(i)["space"]) for i in sdS.minimal_trap_spaces()}
-                gota = set()
-                for ss in W(lambda: sdS.expanded_attractor_sets(), nodes=len(sdS)).values():
-                    for vs in ss:
-                        gota.add(frozenset(tuple(sorted((k, int(v)) for k, v in m.to_named_dict().items())) for m in vs.items()))
-                expm, expa = set(), set()
-                for vals in itertools.product([0, 1], repeat=len(srcs)):
-                    fx = bb.make_sd(gen.fix_vars(net, dict(zip(srcs, vals))))
-                    W(lambda: fx.expand_bfs())
-                    for i in fx.minimal_trap_spaces():
-                        expm.add(conv(fx.node_data(i)["space"]))
-                    for ss in W(lambda: fx.expanded_attractor_sets(), nodes=len(fx)).values():
-                        for vs in ss:
-                            expa.add(frozenset(tuple(sorted((k, int(v)) for k, v in m.to_named_dict().items())) for m in vs.items()))
-                res.c("scc_input_unions_compared")
-                if gotm != expm:
-                    res.v("scc-inputs-minimal-trap-spaces", f"expand_scc(): {len(gotm)} minimal trap spaces, the fixed-input networks have {len(expm)} in total (missing {len(expm - gotm)}, spurious {len(gotm - expm)})", ctx={"rules": rules})
-                if gota != expa:
-                    res.v("scc-inputs-attractors", f"expand_scc(): {len(gota)} attractors, the fixed-input networks have {len(expa)} in total (missing {len(expa - gota)}, spurious {len(gota - expa)})", ctx={"rules": rules})
+            for how in ("scc", "build"):
+                _compare_with_fixed(net, srcs, how, res, bb, W, conv, rules)
         res.nontrivial = nt
     except bb.Aborted as e:
         res.inconclusive = f"aborted: {e}"
